@@ -331,11 +331,23 @@ pub fn c03() -> PropDef {
 enum WOp {
     Enq(u8, u16, Vec<Call>),
     Write(WriteEv),
+    /// a receive of up to this many bytes of the input stream (interim responses may be queued by it)
+    Read(usize),
 }
 
 fn c06_run(ops: &[WOp], obs: &mut Obs) -> Result<(), Fail> {
-    let (st, ss) = ScriptedStream::new(Vec::new());
+    c06_run_with_input(ops, &[], obs)
+}
+
+/// `input` is a request stream; `Read` operations feed it to the connection, which queues a
+/// 100 Continue of its own for every qualifying request (known from REF) — those count as
+/// enqueued at that moment.
+fn c06_run_with_input(ops: &[WOp], input: &[u8], obs: &mut Obs) -> Result<(), Fail> {
+    let (st, ss) = ScriptedStream::new(input.to_vec());
     let mut conn = HttpConnection::new(st);
+    let (ref_reqs, _) = ref_parse(input, buf_size(), crate::DEFAULT_LIMIT);
+    let mut interim_done = 0usize; // qualifying requests whose 100 has been accounted for
+    let mut reading_stopped = false;
     let mut expected: Vec<u8> = Vec::new(); // bytes of the current epoch
     let mut epoch_start = 0usize; // offset into ss.out
     let mut pending_resps = 0usize;
@@ -354,6 +366,30 @@ fn c06_run(ops: &[WOp], obs: &mut Obs) -> Result<(), Fail> {
                 resp_bounds.push(expected.len());
                 conn.enqueue_response(real);
                 pending_resps += 1;
+            }
+            WOp::Read(want) => {
+                if reading_stopped || ss.borrow().pos >= ss.borrow().input.len() {
+                    continue;
+                }
+                ss.borrow_mut().next_read = Some(ReadEv::Data { want: *want, fds: vec![] });
+                let r = catch_unwind(AssertUnwindSafe(|| conn.try_read()));
+                ss.borrow_mut().next_read = None;
+                match r {
+                    Err(p) => return Err(Fail::new("C06:panic", format!("try_read panicked at op {}: {}", i, panic_msg(p)))),
+                    Ok(Err(_)) => reading_stopped = true,
+                    Ok(Ok(())) => {}
+                }
+                while conn.pop_parsed_request().is_some() {}
+                let consumed = ss.borrow().pos;
+                // interim responses queued by this read, in stream order
+                let due: Vec<u8> = ref_reqs.iter().filter(|r| r.wants_continue && r.headers_done_at <= consumed).map(|r| r.version).collect();
+                for v in due.iter().skip(interim_done) {
+                    expected.extend_from_slice(&build_model(*v, 100, &[]).bytes());
+                    resp_bounds.push(expected.len());
+                    pending_resps += 1;
+                    obs.label("interim_response_between_application_responses");
+                }
+                interim_done = interim_done.max(due.len());
             }
             WOp::Write(ev) => {
                 let accepted_before = ss.borrow().out.len() - epoch_start;
@@ -504,9 +540,55 @@ fn c06_hist(input: &Input, obs: &mut Obs) -> Result<(), Fail> {
                 .map(|o| match o {
                     WOp::Enq(v, c, calls) => format!("enqueue(v{} {} {} calls, {} bytes)", v, c, calls.len(), build_model(*v, *c, calls).bytes().len()),
                     WOp::Write(e) => format!("try_write[{:?}]", e),
+                    WOp::Read(n) => format!("try_read[{}]", n),
                 })
                 .collect::<Vec<_>>()
         );
+    }
+    Ok(())
+}
+
+/// application responses interleaved with the connection's own interim responses
+fn c06_mixed(input: &Input, obs: &mut Obs) -> Result<(), Fail> {
+    let mut s = Src::new(input.bytes());
+    let nreq = s.range(1, 4);
+    let mut stream = Vec::new();
+    for k in 0..nreq {
+        let n = s.range(1, 30);
+        let expect = s.chance(190);
+        stream.extend_from_slice(format!("PUT /{} HTTP/1.{}\r\n{}Content-Length: {}\r\n\r\n", k, s.below(2), if expect { "Expect: 100-continue\r\n" } else { "" }, n).as_bytes());
+        stream.extend(filler(0, k as u8, n));
+    }
+    let nops = s.range(3, 50);
+    let mut ops = Vec::new();
+    for _ in 0..nops {
+        match s.weighted(&[8, 5, 10]) {
+            0 => ops.push(WOp::Read([1usize, 7, 40, 200, 1024][s.below(5)])),
+            1 => {
+                let code = [200u16, 100, 204, 400][s.below(4)];
+                let calls = if s.chance(128) { vec![Call::SetBody(filler(0, s.u8(), s.range(0, 300)))] } else { vec![] };
+                ops.push(WOp::Enq(s.below(2) as u8, code, calls));
+            }
+            _ => {
+                let ev = match s.weighted(&[12, 6, 3, 1, 1, 1]) {
+                    0 => WriteEv::Accept(s.u16()),
+                    1 => WriteEv::All,
+                    2 => WriteEv::Eintr,
+                    3 => WriteEv::Eagain,
+                    4 => WriteEv::Epipe,
+                    _ => WriteEv::Zero,
+                };
+                ops.push(WOp::Write(ev));
+            }
+        }
+    }
+    c06_run_with_input(&ops, &stream, obs)?;
+    if obs.labels.contains(&"interim_response_between_application_responses") && obs.labels.contains(&"short_write") {
+        obs.nontrivial = true;
+    }
+    obs.case_hash = Some(fnv64(input.bytes()));
+    if obs.want_render {
+        obs.render = format!("stream=\"{}\" ops={:?}", esc(&stream), ops.iter().map(|o| match o { WOp::Enq(v, c, calls) => format!("enqueue(v{} {} {}B)", v, c, build_model(*v, *c, calls).bytes().len()), WOp::Write(e) => format!("try_write[{:?}]", e), WOp::Read(n) => format!("try_read[{}]", n) }).collect::<Vec<_>>());
     }
     Ok(())
 }
@@ -586,6 +668,7 @@ fn c06_plan(tier: Tier) -> Vec<Job> {
     let q = tier == Tier::Quick;
     vec![
         Job { sub: "hist", kind: JobKind::Pbt { cases: if q { 400_000 } else { 8_000_000 }, max_len: 500 }, smallbuf: false },
+        Job { sub: "mixed", kind: JobKind::Pbt { cases: if q { 150_000 } else { 3_000_000 }, max_len: 300 }, smallbuf: false },
         Job { sub: "pairs", kind: JobKind::Enum { f: c06_pairs_enum, bound: "two responses: every size k1 of the first short write x every size k2 of the second (quick: every third) x one fault {none, EINTR, EAGAIN, EPIPE, zero} before write #0..3" }, smallbuf: false },
     ]
 }
@@ -593,7 +676,7 @@ fn c06_plan(tier: Tier) -> Vec<Job> {
 pub fn c06() -> PropDef {
     PropDef {
         id: "C06",
-        subs: vec![("hist", c06_hist), ("pairs", c06_pairs)],
+        subs: vec![("hist", c06_hist), ("pairs", c06_pairs), ("mixed", c06_mixed)],
         plan: c06_plan,
         rule: "case = history of <=60 operations {enqueue(response with body 0..8 KiB), try_write under a stream behaviour from {accept k for 1<=k<=len incl. 1, len-1, len; EINTR; EAGAIN; EPIPE; zero}}; oracle = model: bytes accepted since the last failure are a prefix of the concatenated serialisation-model bytes of the responses enqueued since then, pending_write() iff a byte is unsent, one write per call, InvalidWrite without touching the stream when nothing is pending, failure discards everything; non-trivial = a short write followed by a later write, a failure with output pending, or an enqueue while a response is partially written",
         assumptions: vec!["EAGAIN from the stream counts as a non-interrupt error (the statement says so)"],
